@@ -304,6 +304,7 @@ class Run:
         if self.collapsed:
             return self.solver.GetResults()
         c0, m0 = self._scan()
+        common.beat("oracle: Solve()", {"case": self.case})
         self._bg_step()
         with contextlib.redirect_stdout(self.out), watchdog(self):
             sol = self.solver.Solve()
@@ -322,6 +323,7 @@ class Run:
         if self.collapsed:
             return False
         c0, _ = self._scan()
+        common.beat("oracle: DoGlobalIteration(%d)" % k, {"case": self.case})
         self._bg_step()
         try:
             with contextlib.redirect_stdout(self.out), watchdog(self):
